@@ -209,7 +209,10 @@ pub fn run(ctx: &Ctx) -> PropResult {
             }
             _ => rng.below(dn),
         };
-        judge_time_pair(rec, n1, n2, gen_offset(rng), gen_offset(rng));
+        // a Time accepts any Offset::Fixed(i32); differences are defined on the stored time and may not depend on it
+        let anyoff = |rng: &mut Rng| if rng.chance(1, 6) { *rng.pick(&[-86_401i32, -86_400, 86_400, 86_401, -200_000, 200_000, i32::MIN, i32::MAX, -1_000_000]) } else { gen_offset(rng) };
+        let (o1, o2) = (anyoff(rng), anyoff(rng));
+        judge_time_pair(rec, n1, n2, o1, o2);
     }));
     wls.push(Workload::cases("date_pairs", ctx.count(100_000, 3_000_000), |rec, _, rng| {
         let d1 = match rng.below(3) {
